@@ -12,8 +12,10 @@ pub mod c08;
 pub mod c09;
 pub mod c10;
 pub mod c11;
+pub mod c13;
 pub mod c14;
 pub mod c16;
+pub mod c17;
 pub mod common;
 
 pub fn run(prop: &str, tier: Tier, seed: u64) -> i32 {
@@ -29,8 +31,10 @@ pub fn run(prop: &str, tier: Tier, seed: u64) -> i32 {
         "C09" => c09::run(tier, seed),
         "C10" => c10::run(tier, seed),
         "C11" => c11::run(tier, seed),
+        "C13" => c13::run(tier, seed),
         "C14" => c14::run(tier, seed),
         "C16" => c16::run(tier, seed),
+        "C17" => c17::run(tier, seed),
         _ => {
             eprintln!("unknown property {prop}");
             2
